@@ -27,6 +27,63 @@ LITERALS = [
 ]
 KNOWN_LITERALS = {'r"[\\"\']"': "F09"}
 
+# generated literals: every one- and two-character text over the classes named by the property (quotes, backslash,
+# control characters, non-ASCII inside and outside the basic plane, characters of the spec syntax), as text, bytes
+# and - for the texts that are regexes - as a regex; two literals per spec, the same text in two kinds included
+CODE_POINTS = [97, 39, 34, 92, 10, 9, 0, 127, 0xe9, 0x20ac, 0x1F600, 0x10348, 123, 60, 124, 32, 46, 91, 35]
+REGEX_TEXTS = [".", "a", "a+", "[ab]", "\\d", "\u00e9", "\U0001F600", "a|b", "x{2}", "\\.", "'", "\""]
+
+
+def lit_src(cps, kind, wide_escape=False):
+    if kind == "re":
+        body = cps
+        return 'r"%s"' % body if '"' not in body else "r'%s'" % body
+    out = []
+    for cp in cps:
+        ch = chr(cp)
+        if ch in '"\\':
+            out.append("\\" + ch)
+        elif cp == 10:
+            out.append("\\n")
+        elif cp == 9:
+            out.append("\\t")
+        elif cp < 32 or cp == 127 or (kind == "bytes" and cp > 126):
+            out.append("\\x%02x" % cp)
+        elif cp > 0xffff and wide_escape:
+            out.append("\\U%08x" % cp)
+        else:
+            out.append(ch)
+    return ('b"%s"' if kind == "bytes" else '"%s"') % "".join(out)
+
+
+def literal_family(rnd, n):
+    singles = [[c] for c in CODE_POINTS]
+    doubles = [[c, d] for c in CODE_POINTS for d in CODE_POINTS]
+    lits = []
+    for t in singles + doubles:
+        lits.append(lit_src(t, "text"))
+        if any(c > 0xffff for c in t):
+            lits.append(lit_src(t, "text", wide_escape=True))
+        if all(c < 256 for c in t):
+            lits.append(lit_src(t, "bytes"))
+    regexes = [lit_src(json.loads('"%s"' % t) if t.startswith("\\u") or t.startswith("\\U") else t, "re") for t in REGEX_TEXTS]
+    specs = []
+    # the same text as a literal and as a regex, in both orders
+    for t in REGEX_TEXTS:
+        text = json.loads('"%s"' % t) if t.startswith("\\u") or t.startswith("\\U") else t
+        a, b = lit_src([ord(c) for c in text], "text"), lit_src(text, "re")
+        specs.append(("literal and regex with the same text %s" % a, "<start> ::= %s %s <a>\n" % (a, b) + HEAD, ""))
+        specs.append(("regex and literal with the same text %s" % a, "<start> ::= %s %s <a>\n" % (b, a) + HEAD, ""))
+    pool = lits + regexes
+    singles_src = [lit_src(t, "text") for t in singles] + [lit_src(t, "text", True) for t in singles if t[0] > 0xffff]
+    for l1 in singles_src:
+        specs.append(("literal %s" % l1, "<start> ::= %s <a>\n" % l1 + HEAD, ""))
+    while len(specs) < n:
+        l1, l2 = rnd.choice(pool), rnd.choice(pool)
+        specs.append(("literals %s %s" % (l1, l2), "<start> ::= %s <a> %s\n" % (l1, l2) + HEAD, ""))
+    return specs[:max(n, len(REGEX_TEXTS) * 2 + len(singles_src))]
+
+
 ANNOTATED = [
     '<start> ::= <A:B:a> <B:A:b>\n' + HEAD,
     '<start> ::= (<A:a> <B:A:b>)* <A:B:a>?\n' + HEAD,
@@ -168,12 +225,15 @@ def run(tier, seed):
                 continue
             emit(1, rec["read"], rec["reread"], rec)
         texts = [("literal %s" % lit, "<start> ::= %s <a>\n" % lit + HEAD, "") for lit in LITERALS]
+        texts += literal_family(rnd, 160 if tier == "quick" else 4000)
         texts += [("party annotations", t, "") for t in ANNOTATED]
         texts += [("generator", t, t.split("<start>")[0]) for t in GENERATORS]
+        read_errors = []
+        ntexts = len(texts)
         for rec in _roundtrip_texts(texts):
             programs += 1
             if "read_error" in rec:
-                rep.note = None
+                read_errors.append((rec["label"], rec["read_error"]))
                 continue
             if "reread_error" in rec:
                 key = "unparseable:%s" % rec["label"]
@@ -183,6 +243,9 @@ def run(tier, seed):
                 emit(2, a, b, dict(rec, rule=k))
             if not rec["gens_equal"]:
                 rep.violation("generator:%s" % rec["label"], "%s: generators differ after print / re-read" % rec["label"], rec)
+    if len(read_errors) > ntexts // 5:
+        raise common.Machinery("%d of %d literal / annotation / generator specs are rejected by the reader, e.g. %s" % (len(read_errors), ntexts, read_errors[:3]))
+    rep.add(whole_specs=ntexts, whole_specs_rejected_by_reader=len(read_errors))
     r = run_tlc("SpecPrint", "SpecPrint", workers=1, env={"TRACE_FILE": pairs_path, "OUT": "/dev/null", "DEPTH": "0"}, timeout=1800, heap="8g")
     rep.tlc(r, "SpecPrint.Same")
     cl = [l for l in r.out.splitlines() if l.startswith('<<"CONSUMED"')]
